@@ -37,6 +37,7 @@ from .spec import (
     _Int,
     _IntList,
     _Str,
+    _StrList,
 )
 
 
@@ -107,6 +108,17 @@ class OptIntV:
     def __init__(self, is_none, val):
         self.is_none = is_none
         self.val = val
+
+
+class HookFn:
+    """A modelled callable passed as a value (e.g. a compiled XPath given as argument)."""
+
+    def __init__(self, fn, name="hook"):
+        self.fn = fn
+        self.name = name
+
+    def __repr__(self):
+        return f"<{self.name}>"
 
 
 class SuperProxy:
@@ -229,7 +241,7 @@ def py_type_of(v):
 def is_symbolic(v):
     if isinstance(v, (tuple, list)):
         return any(is_symbolic(x) for x in v)
-    return isinstance(v, (z3.ExprRef, ListV, OpaqueV, ObjV, Closure, BoundM, ExcV, OptIntV, SuperProxy))
+    return isinstance(v, (z3.ExprRef, ListV, OpaqueV, ObjV, Closure, BoundM, ExcV, OptIntV, SuperProxy, HookFn))
 
 
 ASCII_LETTER = z3.Union(z3.Range("a", "z"), z3.Range("A", "Z"))
@@ -313,6 +325,10 @@ class Engine:
             n = z3.Int(name + ".len")
             self.pc.append(n >= 0)
             return ListV(LLeaf(z3.Array(name + ".arr", z3.IntSort(), z3.IntSort()), n, name))
+        if isinstance(t, _StrList):
+            n = z3.Int(name + ".len")
+            self.pc.append(n >= 0)
+            return ListV(LLeaf(z3.Array(name + ".arr", z3.IntSort(), z3.StringSort()), n, name))
         if isinstance(t, Const):
             return t.value
         if isinstance(t, TupleOf):
@@ -1023,6 +1039,7 @@ class Engine:
             return
         if is_for:
             self.assign(s.target, self.seq_item(it, k), fr)
+            fr.env["k_%d" % ordn] = k          # ghost: index of the item being processed
             extra = {kname: simp_int(k + 1), "it_": self.view(it)}
         try:
             self.exec_block(s.body, fr)
@@ -1849,6 +1866,8 @@ class Engine:
     def call(self, fn, args, kwargs, key=None):
         from . import builtins_model as BM
 
+        if isinstance(fn, HookFn):
+            return fn.fn(self, *args, **kwargs)
         if isinstance(fn, Closure):
             return self.call_ast(fn.node, fn.frame, fn.frame.globals, args, kwargs)
         if isinstance(fn, BoundM):
@@ -2182,6 +2201,7 @@ INLINE_OK: set[str] = {
     "odfdo.element:Element._generic_attrib_setter.<locals>.setter",
     "odfdo.element:Element._generic_attrib_setter.<locals>.setter.fset",
     "odfdo.utils.isiterable:isiterable",
+    "odfdo.document:_get_part_path", "odfdo.document:_get_part_class",
 }
 
 
